@@ -625,6 +625,13 @@ def np_allclose(eng, args, kwargs):
 
 
 def np_array_equal(eng, args, kwargs):
+    if isinstance(args[0], SArr) and isinstance(args[1], SArr) and len(args) == 2 and not kwargs:
+        # two 1-D arrays of symbolic length (this form used to be Unsupported): same length and equal entries
+        used(eng, "np.array_equal of two 1-D arrays: equal lengths and equal entries")
+        a, b = args
+        k = "real" if "real" in (a.kind, b.kind) else ("int" if "int" in (a.kind, b.kind) else a.kind)
+        i = z3.Int(fresh_name("ae"))
+        return eng.sbool(z3.And(a.nz() == b.nz(), z3.ForAll([i], z3.Implies(z3.And(i >= 0, i < a.nz()), to_z3(a.get(i), k) == to_z3(b.get(i), k)))))
     a, b = _as_narr(eng, args[0]), _as_narr(eng, args[1])
     if a.shape != b.shape:
         return False
